@@ -139,6 +139,8 @@ def _registry():
   add("resample-1:1", lambda s, P: al.resample(s, old=1, new=1, order=3, zero=0), rs_need(3, 1, 1), data="real")
   add("resample-up2", lambda s, P: al.resample(s, old=1, new=2, order=1, zero=0), rs_need(1, 1, 2), data="real")
   add("resample-down", lambda s, P: al.resample(s, old=3, new=2, order=2, zero=0), rs_need(2, 3, 2), data="real")
+  add("resample-stream-step", lambda s, P: al.resample(s, old=Stream(1), new=1, order=3, zero=0), rs_need(3, 1, 1), data="real")
+  add("resample-stream-step-half", lambda s, P: al.resample(s, old=1, new=Stream(2), order=1, zero=0), rs_need(1, 1, 2), data="real")
   # overlap-add over a lazily produced block stream, and the STFT wrapper
   def ola(s, P):
     blks = (list(b) for b in blocks(s, size=P["size"], hop=P["hop"]))
@@ -267,6 +269,24 @@ def h_chain(ctx, cfg):
                 "%s|%s %r: %d read after %d outputs, needs %d" % (cfg["first"], cfg["second"], dict(P), src.count, i, n))
 
 
+def h_exhaust(ctx, cfg):
+  """A stage that ends by itself after n items must not read item n+1 when it is exhausted."""
+  from audiolazy import Stream
+  from audiolazy import lazy_itertools as lit
+  with _patched():
+    src = Source(ctx, "elem")
+    n = ctx.split("n", 0, cfg["K"])
+    st = {"Stream.limit": lambda: Stream(src).limit(n), "islice": lambda: lit.islice(src, n),
+          "Stream.take": lambda: iter(Stream(src).take(n)), "limit.copy": lambda: Stream(src).limit(n).copy(),
+          "limit+1": lambda: Stream(src).limit(n) + 1, "peek-then-limit": lambda: (lambda s_: (s_.peek(n), s_.limit(n))[1])(Stream(src)),
+          "zip-with-finite": lambda: Stream(src) * list(range(100, 100 + n))}[cfg["stage"]]()
+    got = list(st)
+    ctx.prove(len(got) == n, "finite-stage-length", "%s: %d items for n=%d" % (cfg["stage"], len(got), n))
+    extra = 1 if cfg["stage"] == "zip-with-finite" else 0          # map/zip must pull the endless side once to learn the other ended
+    ctx.prove(src.count <= n + extra, "exhausting-a-finite-stage-reads-nothing-beyond-its-end",
+              "%s: %d source items read for %d outputs" % (cfg["stage"], src.count, n))
+
+
 def h_peek_take(ctx, cfg):
   """take(n)/peek(n) read exactly n; a finite `take` never touches item n+1."""
   from audiolazy import Stream
@@ -313,6 +333,8 @@ def tasks(tier, seed):
     T.append(("h_chain", {"first": a, "second": b, "K": 3 if (not big or forky) else 5, "S": 2 if not big else 3}))
   for meth in ("take", "peek"):
     T.append(("h_peek_take", {"meth": meth, "K": K}))
+  for st in ("Stream.limit", "islice", "Stream.take", "limit.copy", "limit+1", "peek-then-limit", "zip-with-finite"):
+    T.append(("h_exhaust", {"stage": st, "K": K}))
   return T
 
 
